@@ -15,10 +15,6 @@ theorem colMatrix_ok {t : Nat} (k : Bool) (S : List (List α)) (h : ∀ s ∈ S,
     exact h s hs)]
   rfl
 
-/-- labels of the 2-D table: `name__q` for every variable and time point -/
-def tab2Labels (ops : NameOps ν) (names : List ν) (t : Nat) : List String :=
-  (names.map (fun nm => (List.range t).map (fun q => ops.sh nm ++ "__" ++ toString q))).flatten
-
 /-- C9: `from_nested_to_2d_array` lays the variables' series side by side -/
 theorem fromNestedTo2d_ok (ops : NameOps ν) {n c t : Nat} {X : Arr3 α} (hX : Rect3 n c t X)
     (hn : 0 < n) (hc : 0 < c) (names : List ν) (hl : names.length = c) (k : Bool) (rn : Bool) :
